@@ -2434,25 +2434,47 @@ Definition fail_msg (s : state) : exit_msg :=
   if Nat.eqb (s_fa s) 0 then MSubcommandFailed
   else if s_fa s <? c_k cfg then MCannotProgress else MStuck.
 
+(* the status Build() returns on its error exit: exit_code_, except that the stuck branch sets ExitFailure *)
+Definition exit_status (s : state) : nat :=
+  match fail_msg s with MStuck => exit_failure | _ => s_exit s end.
+
 Lemma exit_build s code m s' : s_phase s = PhBuild -> step g cfg loads s (EvExit code m) = Some s' ->
   s_waiting s = false /\ s_running s' = s_running s /\
   ((more_to_do (s_plan s) = false /\ code = 0 /\ m = MSuccess) \/
    (more_to_do (s_plan s) = true /\ s_pending s = 0 /\ can_start cfg s = false /\
-    code = s_exit s /\ m = fail_msg s)).
+    code = exit_status s /\ m = fail_msg s)).
 Proof.
   intros Hph Hst. unfold step in Hst. unfold step_res in Hst; cbn [step_res_gen] in Hst. rewrite Hph in Hst.
   destruct (s_waiting s); [discriminate|]. split; [reflexivity|].
   destruct (more_to_do (s_plan s)) eqn:Em; cbn [negb] in Hst.
   - destruct (Nat.eqb_spec (s_pending s) 0) as [Hp|Hp]; cbn [andb] in Hst; [|discriminate].
     destruct (can_start cfg s) eqn:Ec; cbn [negb] in Hst; [discriminate|].
-    fold (fail_msg s) in Hst.
-    destruct (Nat.eqb_spec (s_exit s) code) as [He|He]; cbn [andb] in Hst; [|discriminate].
+    fold (fail_msg s) in Hst. fold (exit_status s) in Hst.
+    destruct (Nat.eqb_spec (exit_status s) code) as [He|He]; cbn [andb] in Hst; [|discriminate].
     destruct (exit_msg_eqb m (fail_msg s)) eqn:Emsg; [|discriminate].
     injection Hst as <-. split; [reflexivity|]. right. repeat split; try assumption; [symmetry; exact He|].
     apply exit_msg_eqb_eq. exact Emsg.
   - destruct (Nat.eqb_spec 0 code) as [He|He]; cbn [andb] in Hst; [|discriminate].
     destruct (exit_msg_eqb m MSuccess) eqn:Emsg; [|discriminate].
     injection Hst as <-. split; [reflexivity|]. left. repeat split; [symmetry; exact He|apply exit_msg_eqb_eq; exact Emsg].
+Qed.
+
+Lemma exit_status_failed s : core s -> s_failed s <> [] -> exit_status s = s_exit s.
+Proof.
+  intros HC Hf. unfold exit_status, fail_msg. destruct (Nat.eqb (s_fa s) 0); [reflexivity|].
+  destruct (Nat.ltb_spec (s_fa s) (c_k cfg)) as [H1|H1]; [reflexivity|].
+  exfalso. apply Hf. apply (co_fa_k s HC). pose proof (co_fa s HC). lia.
+Qed.
+
+(* whatever the state: an accepted stuck exit carries the failure status *)
+Theorem stuck_exit_status s code s' : step g cfg loads s (EvExit code MStuck) = Some s' -> code = exit_failure.
+Proof.
+  intros Hst. destruct (s_phase s) eqn:Eph.
+  - destruct (exit_build s code MStuck s' Eph Hst) as [_ [_ [[_ [_ Hm]]|[_ [_ [_ [Hcode Hm]]]]]]]; [discriminate|].
+    unfold exit_status in Hcode. rewrite <- Hm in Hcode. exact Hcode.
+  - unfold step in Hst. unfold step_res in Hst; cbn [step_res_gen] in Hst. rewrite Eph in Hst.
+    destruct (Nat.eqb code exit_interrupted); cbn [andb exit_msg_eqb] in Hst; discriminate.
+  - unfold step in Hst. unfold step_res in Hst; cbn [step_res_gen] in Hst. rewrite Eph in Hst. discriminate.
 Qed.
 
 Lemma exit_interrupted_phase s code m s' : s_phase s = PhInterrupted ->
@@ -2584,7 +2606,7 @@ Proof.
     + exfalso. destruct (s_failed s1) as [|x l] eqn:Ef; [congruence|].
       assert (Hx' : In x (s_running s1 ++ s_failed s1)) by (rewrite Ef; apply in_or_app; right; left; reflexivity).
       rewrite (more_to_do_of_active s1 x HC Hx') in Hm. discriminate.
-    + subst code. split; [apply (co_exit1 s1 HC Hf)|]. intros _. split; [exact Hx|].
+    + subst code. rewrite (exit_status_failed s1 HC Hf). split; [apply (co_exit1 s1 HC Hf)|]. intros _. split; [exact Hx|].
       rewrite Hm. unfold fail_msg. destruct (Nat.eqb (s_fa s1) 0); [discriminate|].
       destruct (s_fa s1 <? c_k cfg); discriminate.
   - destruct (exit_interrupted_phase s1 code m s2 Eph E2) as [-> ->].
